@@ -374,10 +374,10 @@ def connWrite (st : St) (t : Tr) (b : Bytes) : WriteResult :=
   else
     writeLoop ((st.writeBuf ++ b).length + 1) b.length { st with writeBuf := st.writeBuf ++ b } t
 
-/-- `convertErrorsToAlerts(c, err)` with `c` the Conn itself: the alert goes through Conn.Write,
-    then the embedded transport is closed -/
-def alertViaConn (e : Err) (st : St) (t : Tr) : St × Tr :=
-  ((connWrite st t (alertRecord e)).st, (connWrite st t (alertRecord e)).tr.close)
+/-- `convertErrorsToAlerts(c.Conn, err)` in Conn.Read: the alert is written to the embedded
+    transport directly (not through Conn.Write, whose buffer belongs to the writing goroutine),
+    then the transport is closed; the Conn's own state is untouched -/
+def alertViaConn (e : Err) (st : St) (t : Tr) : St × Tr := (st, alertRaw e t)
 
 /-! ### Conn.Read -/
 structure ReadResult where
